@@ -85,7 +85,7 @@ func CallArgs(c ssa.CallInstruction) []ssa.Value {
 		return cc.Args
 	}
 	if f := Callee(c); f != nil {
-		if sig, ok := f.Type().(*types.Signature); ok && sig.Recv() != nil && len(cc.Args) > 0 {
+		if sig, ok := f.Type().(*types.Signature); ok && (sig.Recv() != nil || PseudoMethod[f]) && len(cc.Args) > 0 {
 			return cc.Args[1:]
 		}
 	}
@@ -99,7 +99,7 @@ func CallRecv(c ssa.CallInstruction) ssa.Value {
 		return cc.Value
 	}
 	if f := Callee(c); f != nil {
-		if sig, ok := f.Type().(*types.Signature); ok && sig.Recv() != nil && len(cc.Args) > 0 {
+		if sig, ok := f.Type().(*types.Signature); ok && (sig.Recv() != nil || PseudoMethod[f]) && len(cc.Args) > 0 {
 			return cc.Args[0]
 		}
 	}
